@@ -234,6 +234,31 @@ int LLVMFuzzerTestOneInput(const unsigned char *data, size_t size) {
     return 0;
 }
 #else
+// DBA scale-up slice: a narrow band, series of clearly different lengths (4..20) and plateau-rich values, so that optimal
+// paths inside the band have many non-diagonal steps (path index arrays, scratch matrix sized for the widest series)
+static void dba_long(int ndim, DTWSettings *st) {
+    int n = 2 + rnd() % 3;
+    idx_t *lengths = malloc(sizeof(idx_t) * n); seq_t **ptrs = malloc(sizeof(seq_t *) * n);
+    for (int i = 0; i < n; i++) {
+        lengths[i] = (rnd() % 2) ? 4 + rnd() % 5 : 10 + rnd() % 11;
+        ptrs[i] = malloc(sizeof(seq_t) * lengths[i] * ndim);
+        seq_t v = 0;
+        for (idx_t j = 0; j < lengths[i]; j++) {
+            if (rnd() % 3 == 0) v = ((int)(rnd() % 9) - 4) / 2.0;          // plateaus
+            for (int d = 0; d < ndim; d++) ptrs[i][j * ndim + d] = v + d;
+        }
+    }
+    idx_t t = 6 + rnd() % 12;
+    seq_t *c = malloc(sizeof(seq_t) * t * ndim);
+    { seq_t v = 0; for (idx_t j = 0; j < t; j++) { if (rnd() % 3 == 0) v = ((int)(rnd() % 9) - 4) / 2.0; for (int d = 0; d < ndim; d++) c[j * ndim + d] = v + d; } }
+    ba_t mask[1] = {0};
+    for (int i = 0; i < n; i++) mask[0] |= (1 << i);
+    dtw_dba_ptrs(ptrs, n, lengths, c, t, mask, 0, ndim, st); calls[29]++; acc(c[0]);
+    dtw_dba_ptrs(ptrs, n, lengths, c, t, mask, 0, ndim, st); calls[29]++; acc(c[t * ndim - 1]);
+    for (int i = 0; i < n; i++) free(ptrs[i]);
+    free(ptrs); free(lengths); free(c);
+}
+
 int main(int argc, char **argv) {
     int maxlen = atoi(argv[1]), shard = atoi(argv[2]), nshards = atoi(argv[3]); unsigned seed = atoi(argv[4]);
     rs = seed * 2654435761ULL + 99;
@@ -280,6 +305,11 @@ int main(int argc, char **argv) {
         // collections beyond 16 / 32 / 64 series: DBA masks of several bytes, index arithmetic of the matrix routines
         if (n == 5 && w == 1) { matrices(17, ndim, 3, &st); matrices(33, ndim, 3, &st); }
         if (n == 5 && w == 2 && inner == 0) { matrices(65, ndim, 2, &st); }
+    }
+    for (int rep = 0; rep < 1500; rep++) {
+        DTWSettings st = dtw_settings_default(); st.window = 1 + rep % 3; st.inner_dist = (rep / 3) % 2;
+        if (rep % 5 == 0) st.penalty = 0.5;
+        dba_long(1 + rep % 2, &st);
     }
     printf("CONFIGS %lu CHECKSUM %.6f\n", ncfg, checksum);
     for (int i = 0; names[i] || i < 33; i++) { if (!names[i]) break; printf("CALLS %s %lu\n", names[i], calls[i]); }
